@@ -409,6 +409,38 @@ def parseMal (ts : List Tok) : Option (List Decl) :=
   | [] => some []
   | t :: _ => if startsDecl t then parseDecls (2 * ts.length + 8) [] ts else none
 
+/-- `parseDecls` returning also the tokens it did not consume -/
+def parseDeclsRest : Nat → List Decl → List Tok → Option (List Decl × List Tok)
+  | 0, _, _ => none
+  | f+1, acc, ts =>
+    match ts with
+    | [] => some (acc, [])
+    | t :: _ =>
+      if startsDecl t then
+        match parseDecl f ts with
+        | some (d, rest) => parseDeclsRest f (acc ++ [d]) rest
+        | none => none
+      else some (acc, ts)
+
+def parseMalRest (ts : List Tok) : Option (List Decl × List Tok) :=
+  match ts with
+  | [] => some ([], [])
+  | t :: _ => if startsDecl t then parseDeclsRest (2 * ts.length + 8) [] ts else none
+
+/-- **What the ANTLR front end makes of a source text.**  If the whole text lexes, the token list is parsed.  If it
+does not, the parser still sees the tokens in front of the first lexing error, fetched on demand: the start rule
+`mal` has no `EOF`, so the parser stops at the first token that does not start a declaration — when such a token
+exists *before* the error, the lexer is never asked for the erroneous text and no error is reported (neither by a
+counting listener nor by the compiler's raising listener).  When the parser consumes everything in front of the
+error, its next look-ahead is the erroneous text and the error is reported. -/
+def parseSource (src : String) : Option (List Decl) :=
+  match lex src with
+  | some ts => parseMal ts
+  | none =>
+    match parseMalRest (lexPrefix src) with
+    | some (ds, _ :: _) => some ds
+    | _ => none
+
 /-! ### `visitMal`: assembling the specification, includes, de-duplication -/
 
 def mergeSpec (s inc : CSpec) : CSpec :=
@@ -424,7 +456,7 @@ def compileFile (files : String → Option String) : Nat → String → Option C
     match files name with
     | none => none
     | some src =>
-      match (lex src).bind parseMal with
+      match parseSource src with
       | none => none
       | some decls =>
         let r : Option CSpec := decls.foldlM (fun (s : CSpec) d =>
